@@ -99,7 +99,12 @@ def check(prop, tier, seed, relock=False, only=None, jobs=None):
         # slow queries are the unstable ones: a clause whose discharge needs more than
         # SLOW_S seconds on the pinned tree is not claimed (it stays in the evidence as generated-not-claimed)
         SLOW_S = float(os.environ.get("VERIF_SLOW_S", "8"))
+        # `#no_exception` obligations exist only on paths where the explorer could not rule an
+        # exception path out by feasibility alone; their presence is path-search dependent, so they
+        # are never part of the claim (an exception on a feasible path is reported through the
+        # replayed input)
         newc = sorted(c for c, lst in by_clause.items() if all(x["status"] == "proved" for x in lst)
+                      and not c.endswith("#no_exception")
                       and not any(x.get("concrete_failures") for x in lst)
                       and (c.startswith("specpart.c:") or c.startswith("lean:") or max(x.get("time_s", 0) for x in lst) <= SLOW_S))
         lock[prop] = newc
